@@ -1,12 +1,16 @@
-\* Exhaustive, quick tier: leader with one follower, log end <= 3, boundaries 1..3, both stores.
-\* Measured: 10,576 distinct states, 333,884 transitions, depth 9 (about 15 s on an idle machine,
-\* 40-70 s with the machine at load 30-50).
+\* Exhaustive, quick tier: leader with one follower, log end <= 3, boundaries 1..3, both stores; a fresh
+\* channel or a runtime loaded from a 3-row store (every checkpoint / boundary); forwarded reads with the
+\* leader's lookup answering not-found (the other modes: thorough tier).
+\* Measured: 13,370 distinct states, depth 9 (583,384 transitions; about 50 s at load 12-20, 140 s at load 70).
 SPECIFICATION Spec
 CONSTANTS
   Followers = {2}
   ISRs = {{1, 2}}
   MinISRs = {1, 2}
   Stores = {"memory", "messagedb"}
+  FwdModes = {"miss"}
+  PreLeos = {0, 3}
+  PreBars = {0}
   MaxLeo = 3
   MaxB = 3
   Trims = {0, 1}
@@ -17,6 +21,7 @@ CONSTANTS
   SyncEnds = {0}
   CapZeroUnbounded = FALSE
   LastUncapped = FALSE
+  FwdDropsSyncOnce = FALSE
 VIEW View
 INVARIANTS TypeOK C10_PhysBound
 PROPERTIES C10_ReadWindow C10_Monotone C10_TrimCovered
